@@ -672,7 +672,7 @@ theorem dqm_file_roundtrip_closed (crc32 : Bytes → Nat) (inflate : Bytes → O
     loadDqm crc32 inflate (dumpDqm crc32 deflate μ ignore c labels) =
       .ok (dqmCountsDict (dqmCounts c) (dqmVariablesFlag ignore labels), c,
            if dqmVariablesFlag ignore labels then some (serializeLabels labels) else none) := by
-  obtain ⟨x, e, hxe, h22, hsig, hz, hdir, hmagic, hread⟩ :=
+  obtain ⟨x, e, hxe, h22, hsig, hz, hdir, hmagic, _, hread⟩ :=
     readDqmBlob_npz crc32 inflate deflate μ c wf hnpy hcrc hcodec hμ hfit hsize
   unfold loadDqm dumpDqm
   rw [hxe]
